@@ -161,6 +161,18 @@ SAFE = dict(
          ('element-type', ['utf8']), ('skip', []), ('allow-none', [])])
 
 
+# annotations that may be given twice with different options: (name, options of "a", options of "a~"), all valid for the part
+DUPABLE = dict(
+    id=[('attributes', {'org.demo.owner': 'core'}, {'org.demo.leak': '1'}), ('attributes', {'k': 'v', 'k2': 'w'}, {'k': 'other'}),
+        ('transfer', ['full'], ['none']), ('value', ['3'], ['4']), ('rename-to', ['foo_x'], ['foo_y'])],
+    param=[('attributes', {'org.demo.owner': 'core'}, {'org.demo.leak': '1'}), ('attributes', {'k': 'v'}, {'k': 'other', 'z': None}),
+           ('array', {'length': 'n'}, {'fixed-size': '3'}), ('element-type', ['utf8'], ['gint']), ('transfer', ['full'], ['none']),
+           ('scope', ['call'], ['async'])],
+    tag=[('attributes', {'org.demo.owner': 'core'}, {'org.demo.leak': '1'}), ('array', {'zero-terminated': '1'}, {'fixed-size': '2'}),
+         ('element-type', ['utf8'], ['gint']), ('transfer', ['full'], ['container'])])
+DUP_ID = 'a~'
+
+
 def ann_text(name, opts):
     if isinstance(opts, dict):
         o = ' '.join(k if v is None else '%s=%s' % (k, v) for k, v in opts.items())
@@ -212,6 +224,16 @@ class Sub:
         else:
             raise ValueError(form)
         self.ident_src, self.ident_exp = src, exp
+        # parts whose first annotation is repeated (fault "dupparen") draw it from DUPABLE
+        self.dups = {}
+        part = 'id'
+        for l in case['lines']:
+            if l['k'] == 'ident':
+                part = 'id'
+            elif l['k'] in ('param', 'tag') and l['name'] not in ('attributes', 'renameto'):
+                part = l['name']
+            if DUP_ID in l['anns'] and part not in self.dups:
+                self.dups[part] = r.choice(DUPABLE['id' if part == 'id' else 'tag' if part == 'returns' else 'param'])
         names = list(PARAM_NAMES)
         r.shuffle(names)
         self.pnames = {'p1': names[0], 'p2': names[1], 'p3': names[2], 'returns': r.choice(['returns', 'Returns', 'RETURNS'])}
@@ -267,6 +289,8 @@ class Sub:
     def _draw_safe(self, part):
         r = self.rng
         used = self.used.setdefault(part, set())
+        if part in self.dups:
+            used.add(self.dups[part][0])
         pool = SAFE['id' if part == 'id' else 'tag' if part == 'returns' else 'param']
         cands = [c for c in pool if c[0] not in used and not (c[0] == 'allow-none' and 'nullable' in used)
                  and not (c[0] == 'nullable' and 'allow-none' in used)
@@ -278,7 +302,13 @@ class Sub:
     def ann(self, part, aid):
         key = (part, aid)
         if key not in self.anns:
-            self.anns[key] = self._draw_full(part) if self.mode == 'full' else self._draw_safe(part)
+            if part in self.dups and aid in ('a', DUP_ID):
+                name, o1, o2 = self.dups[part]
+                opts = o1 if aid == 'a' else o2
+                self.used.setdefault(part, set()).add(name)
+                self.anns[key] = (ann_text(name, opts), proj_ann(name, opts), name)
+            else:
+                self.anns[key] = self._draw_full(part) if self.mode == 'full' else self._draw_safe(part)
         return self.anns[key]
 
     # -------- texts
